@@ -1166,6 +1166,19 @@ impl<'a> GeneratorState<'a> {
         pos: usize,
         load: bool,
     ) -> Result<(), Error> {
+        match expr {
+            ExprType::Nothing => {
+                return Err(self
+                    .compiler_state
+                    .syntax_error("load/store needs a value or a memory location", pos))
+            }
+            ExprType::Immediate(_) if !load => {
+                return Err(self
+                    .compiler_state
+                    .syntax_error("Can't store into a constant", pos))
+            }
+            _ => (),
+        }
         self.protected = true;
         match expr {
             ExprType::X => {
